@@ -332,6 +332,18 @@ func runC12(r *rt.Runner) {
 				le := []string{"\n", "\r", "\r\n"}[rng.IntN(3)]
 				parts = append(parts[:pos], append([]string{le + "%%Title: multi call" + le + "%%+ continued" + le}, parts[pos:]...)...)
 			}
+			if rng.IntN(3) == 0 && len(parts) >= 2 {
+				// a continuation line that does not directly follow the comment it
+				// continues (tokens in between): whatever the library makes of it, a
+				// call boundary between the two lines must not change it
+				p1 := rng.IntN(len(parts) - 1)
+				p2 := p1 + 1 + rng.IntN(len(parts)-p1-1) + 1
+				le := []string{"\n", "\r", "\r\n"}[rng.IntN(3)]
+				withCont := append(append([]string(nil), parts[:p2]...), le+"%%+ second part"+le)
+				withCont = append(withCont, parts[p2:]...)
+				parts = append(append(append([]string(nil), withCont[:p1]...), le+"%%Title: first part"+le), withCont[p1:]...)
+				c.Count("multi-call programs with a separated continuation line")
+			}
 			if rng.IntN(40) == 0 {
 				// more than a thousand structured comments in one program
 				pos := rng.IntN(len(parts) + 1)
